@@ -5,6 +5,7 @@
 use crate::api;
 use serde_json::{json, Value as J};
 use sqlparser::ast::*;
+use sqlparser::dialect::GenericDialect;
 use std::io::Write;
 
 fn node(k: &str, op: String, a: Vec<J>) -> J {
@@ -20,7 +21,14 @@ fn fn_args(f: &Function) -> Vec<J> {
                 FunctionArg::Unnamed(FunctionArgExpr::Expr(e)) => norm(e),
                 // `f(a = b)`: some dialects' parsers read this as a named argument; in the emitted text it is a comparison
                 FunctionArg::Named { name, arg: FunctionArgExpr::Expr(e), operator: FunctionArgOperator::Equals } => {
-                    node("bin", "=".into(), vec![node("id", name.value.clone(), vec![]), norm(e)])
+                    // (oracle limit: the text is an expression `name = ...`; read it again as one, so that the rest of it
+                    // groups by operator precedence and not as the value of a named argument)
+                    let text = format!("{name} = {e}");
+                    let g = GenericDialect {};
+                    match sqlparser::parser::Parser::new(&g).try_with_sql(&text).and_then(|mut p| p.parse_expr()) {
+                        Ok(x) => norm(&x),
+                        Err(_) => node("bin", "=".into(), vec![node("id", name.value.clone(), vec![]), norm(e)]),
+                    }
                 }
                 other => node("text", other.to_string(), vec![]),
             })
